@@ -975,6 +975,13 @@ def regenerate():
         if r['rewritten']: changed.append('SlotsRouting.lean')
     except Exception as e:
         S.status['routing'] = 'extractor failed (%s: %s); previous file kept' % (type(e).__name__, e)
+    try:                         # state that could outlive a call (globals, memoising decorators, writes through module-level names)
+        import modstate
+        r = modstate.regenerate()
+        S.status['module_state'] = 'none' if not r['found'] else '; '.join('%s: %s' % x for x in r['found'])
+        if r['rewritten']: changed.append('SlotsModuleState.lean')
+    except Exception as e:
+        S.status['module_state'] = 'extractor failed (%s: %s); previous file kept' % (type(e).__name__, e)
     S.status['_files_rewritten'] = changed
     return S.status
 
